@@ -80,13 +80,31 @@ theorem extract_unsafe_errors (c : Cfg) (root : Path) (es : List EntryView) (fs 
   extractSeek_unsafe c root es fs h
 
 /-- The first unsafe entry that is reached stops the run with `InvalidArchive("Invalid file path")`;
-nothing is done for it or for any later entry, and no recorded mode is applied (the state is the one
-the placing of the earlier entries left). -/
+nothing is done for it or for any later entry.  The modes recorded for the entries BEFORE it are
+applied to what the placing of those entries left (`fs1`) — deepest path first, up to the first
+`set_permissions` that fails, that failure ignored (best effort) — and nothing else happens: a failed
+run does not leave an earlier entry more accessible than recorded (repair `fix: a failed extract
+still applies the Unix modes recorded for the entries written so far`; before it this theorem read
+"no mode is applied": `… = (fs1, some .invalidPath)`).  Confinement of such a run: `extract_confined`
+(every input, every outcome). -/
 theorem extract_unsafe_stops (c : Cfg) (root : Path) (pre post : List EntryView) (e : EntryView)
     (fs fs1 : FS) (hpre : placeFiles c true root pre fs = (fs1, none)) (ho : e.openErr = none)
     (hn : enclosedName e.name = none) :
-    extractSeek c root (pre ++ e :: post) fs = (fs1, some .invalidPath) :=
+    extractSeek c root (pre ++ e :: post) fs =
+      ((applyModes c root (modeOrder (pre.map fun e => (e.name, e.mode))) fs1).1, some .invalidPath) :=
   extractSeek_unsafe_at c root pre post e fs fs1 hpre ho hn
+
+/-- **A failed run, any failure.** When placing the entries fails — an entry that cannot be opened,
+an unsafe name, a filesystem error, a read error such as a checksum mismatch — the result is the
+error of the placing, and the filesystem is what the placing left with the modes of the entries
+placed completely before the failing one (`placedCount` of them) applied. -/
+theorem extract_failed_run (c : Cfg) (root : Path) (es : List EntryView) (fs fs1 : FS) (er : Err)
+    (h : placeFiles c true root es fs = (fs1, some er)) :
+    extractSeek c root es fs =
+      ((applyModes c root
+          (modeOrder ((es.take (placedCount c true root es fs)).map fun e => (e.name, e.mode))) fs1).1,
+        some er) := by
+  unfold extractSeek; rw [h]
 
 /-- **Unsafe name ⇒ error (streaming)**: in a local header or in a central record. -/
 theorem extractStream_unsafe_errors (c : Cfg) (root : Path) (files : List EntryView)
@@ -224,6 +242,19 @@ example : (extractSeek cfg root0 hostile fs0).1.lookup ["t".toList, "ok".toList]
 example : (extractSeek cfg root0 hostile fs0).1.lookup ["etc".toList, "passwd".toList] = none := by decide
 example : (extractSeek cfg root0 hostile fs0).1.lookup ["t".toList, "never".toList] = none := by decide
 example : (extractSeek cfg root0 [{ name := "/etc/passwd".toList }] fs0).2 = some .invalidPath := by decide
+
+/-- a restrictive entry followed by one that fails (checksum mismatch / unsafe name): the run fails and
+the first entry has its recorded mode (it was left at 0o644 between the two repairs of `extract`) -/
+private def secretThenBad : List EntryView :=
+  [{ name := "secret".toList, data := [1], mode := some 0o100600 },
+   { name := "bad".toList, data := [2], readErr := some .ioOther, mode := some 0o100644 }]
+example : (extractSeek cfg root0 secretThenBad fs0).2 = some (.src .ioOther) := by decide
+example : (extractSeek cfg root0 secretThenBad fs0).1.lookup ["t".toList, "secret".toList]
+    = some (.file [1] 0o600) := by decide
+example : (extractSeek cfg root0 secretThenBad fs0).1.lookup ["t".toList, "bad".toList]
+    = some (.file [2] 0o644) := by decide
+example : (extractSeek cfg root0 [{ name := "secret".toList, data := [1], mode := some 0o100600 },
+    { name := "../x".toList }] fs0).1.lookup ["t".toList, "secret".toList] = some (.file [1] 0o600) := by decide
 
 -- "a/../b" is accepted by `enclosed_name`; the kernel needs `a` to exist for the walk, so
 -- `create_dir_all("t/a/..")` creates it: the tree has BOTH `a` and `b`
